@@ -26,8 +26,8 @@
    compared with the same reference min_alt_del, which by min_alt_del_correct is THE minimum, so no further theorem is
    needed; AltDel_strict shows that on strict profiles the specification is C03's SP of the remaining rankings. *)
 From Coq Require Import List Arith NArith ZArith Bool Permutation.
-From PrefVerif Require Import Lib.Val Lib.Contig Lib.Subsets Model.SP Model.Deletion Model.ILPEnc Model.ELPDP
-                              Model.Partition Proofs.SP Proofs.Deletion Proofs.ILPEnc Proofs.ELPDP.
+From PrefVerif Require Import Lib.Val Lib.Contig Lib.Subsets Model.SP Model.Deletion Model.ILPEnc Model.ELPDP Model.MaxAxis
+                              Model.Partition Proofs.SP Proofs.Deletion Proofs.ILPEnc Proofs.ELPDP Proofs.MaxAxis.
 Import ListNotations.
 
 (* ---- the reference optimisers return the minimum ---------------------------------------------- *)
@@ -333,6 +333,16 @@ Theorem approx_valid : forall (pair_first : N -> N -> bool) (ext_order : list (l
                partition_check alts votes axes = true.
 Proof. exact Proofs.ELPDP.approx_valid. Qed.
 Print Assumptions approx_valid.
+
+(* ---- a fast verified reference for strict profiles (Model/MaxAxis.v) --------------------------- *)
+(* Optimality of the dynamic programme (|removed| = min_alt_del) is NOT proved.  To compare it exactly at 7-12
+   alternatives, where min_alt_del (all deletion sets x all axes) is too slow, the longest single-peaked axis over any
+   subset of the alternatives is computed by a depth-first search over the lists on which every vote is single-peaked
+   (hereditary, so the search is exhaustive), and proved equal to the reference: *)
+Theorem fast_min_alt_correct : forall alts votes, NoDup alts -> (forall v, In v votes -> Permutation alts v) ->
+  fast_min_alt alts votes = min_alt_del alts (map strictify votes).
+Proof. exact Proofs.MaxAxis.fast_min_alt_correct. Qed.
+Print Assumptions fast_min_alt_correct.
 
 (* ---- non-vacuity ------------------------------------------------------------------------------ *)
 Open Scope N_scope.
